@@ -313,6 +313,12 @@ def run(pid, tier, seed, replay=None):
                     if inst_s["d"] <= 4:
                         add("lazy-causal-sympy", inst_s, concretise(
                             [x for x in s if x[2] < 2 and x[3] < 2], inst_s), input_kind="lazy_sympy", recheck=0)
+                if n_ % 5 == 0:
+                    # the lazily defined Hamiltonian handing out whole terms as NESTED BLOCK LISTS
+                    inst_b = draw_instance(rng, nb=2 if n_ % 2 else 3, k=[1, 2][(n_ // 5) % 2], N=2)
+                    add("lazy-causal-blocklists", inst_b, concretise(
+                        [x for x in s if x[2] < len(inst_b["sizes"]) and x[3] < len(inst_b["sizes"])], inst_b),
+                        input_kind="lazy_blocklists", recheck=0)
                 if n_ % 5 == 3:
                     # the same clauses in IMPLICIT mode (incomplete eigenvectors, direct solver): requests on the
                     # explicit blocks only
